@@ -6,6 +6,7 @@ import (
 	"math/big"
 	"os"
 	"os/exec"
+	"runtime"
 	"strings"
 
 	multiproof "github.com/crate-crypto/go-ipa"
@@ -241,8 +242,11 @@ func c03Units(ctx *core.Ctx) []core.Unit {
 			desc string
 		}
 		var cfgs []cfg
+		allowed := allowedCPUs()
 		for _, k := range []int{1, 2, 3, 4, 8, 16} {
-			cfgs = append(cfgs, cfg{k, "", fmt.Sprintf("taskset %d CPUs", k)})
+			if k <= len(allowed) {
+				cfgs = append(cfgs, cfg{k, "", fmt.Sprintf("taskset %d CPUs", k)})
+			}
 		}
 		for _, g := range []string{"1", "2", "4", "16"} {
 			cfgs = append(cfgs, cfg{0, g, "GOMAXPROCS=" + g})
@@ -251,7 +255,11 @@ func c03Units(ctx *core.Ctx) []core.Unit {
 			args := []string{self, "-prop", "C03", "-tier", ctx.Tier, "-seed", fmt.Sprint(ctx.Seed), "-rununit", "probe"}
 			var cmd *exec.Cmd
 			if cf.aff > 0 {
-				cmd = exec.Command("taskset", append([]string{"-c", fmt.Sprintf("0-%d", cf.aff-1)}, args...)...)
+				ids := make([]string, cf.aff)
+				for i := range ids {
+					ids[i] = fmt.Sprint(allowed[i])
+				}
+				cmd = exec.Command("taskset", append([]string{"-c", strings.Join(ids, ",")}, args...)...)
 			} else {
 				cmd = exec.Command(args[0], args[1:]...)
 			}
@@ -259,8 +267,20 @@ func c03Units(ctx *core.Ctx) []core.Unit {
 			if cf.gmp != "" {
 				cmd.Env = append(cmd.Env, "GOMAXPROCS="+cf.gmp)
 			}
-			out, err := cmd.Output()
+			var out []byte
+			var err error
+			if !timed(r, "c03.panic", "CreateMultiProof/CreateIPAProof", "15 proofs under "+cf.desc+" (child process)", func() { out, err = cmd.Output() }) {
+				if cmd.Process != nil {
+					cmd.Process.Kill()
+				}
+				continue
+			}
 			if err != nil {
+				if cf.aff > 0 && !strings.Contains(string(out), "digest=") {
+					// the sandbox does not allow this affinity setting: the configuration is skipped, not failed
+					r.Note("skipped_"+cf.desc, err.Error())
+					continue
+				}
 				r.ToolError = fmt.Sprintf("probe child (%s) failed: %v", cf.desc, err)
 				return
 			}
@@ -277,8 +297,8 @@ func c03Units(ctx *core.Ctx) []core.Unit {
 				}
 			}
 			if cf.aff > 0 && ncpu != fmt.Sprint(cf.aff) {
-				r.ToolError = fmt.Sprintf("probe child under %s saw NumCPU=%s", cf.desc, ncpu)
-				return
+				r.Note("skipped_"+cf.desc, "child saw NumCPU="+ncpu) // affinity not honoured here: not a comparison of that configuration
+				continue
 			}
 			if got != want {
 				vio(r, "c03.config", "CreateMultiProof/CreateIPAProof", "15 proofs under "+cf.desc, "digest "+want, got)
@@ -383,4 +403,32 @@ func poisonBig(x interface{}) {
 		b.Lsh(big.NewInt(0x5eed5eed), 270)
 		b.Add(b, big.NewInt(12345))
 	}
+}
+
+// allowedCPUs: the CPU ids this process may run on (Cpus_allowed_list of /proc/self/status), falling back
+// to 0..NumCPU-1.
+func allowedCPUs() []int {
+	var ids []int
+	if b, err := os.ReadFile("/proc/self/status"); err == nil {
+		for _, ln := range strings.Split(string(b), "\n") {
+			if strings.HasPrefix(ln, "Cpus_allowed_list:") {
+				for _, part := range strings.Split(strings.TrimSpace(strings.TrimPrefix(ln, "Cpus_allowed_list:")), ",") {
+					var lo, hi int
+					if n, _ := fmt.Sscanf(part, "%d-%d", &lo, &hi); n == 2 {
+						for i := lo; i <= hi; i++ {
+							ids = append(ids, i)
+						}
+					} else if n, _ := fmt.Sscanf(part, "%d", &lo); n == 1 {
+						ids = append(ids, lo)
+					}
+				}
+			}
+		}
+	}
+	if len(ids) == 0 {
+		for i := 0; i < runtime.NumCPU(); i++ {
+			ids = append(ids, i)
+		}
+	}
+	return ids
 }
